@@ -23,7 +23,7 @@ ASSUMPTIONS = [
     "third decimal",
     "sensors whose bytes lie outside the fetched window of a block are C14's subject and skipped here for that block",
 ]
-MUST = ["schedule_power_readings_checked", "schedule_groups_decoded", "end_to_end_with_refused_blocks", "undecodable_neighbour_in_block", "single_sensor_reads_end_to_end", "sensor_and_setting_of_one_id", "values_checked", "footprint_checked", "noninterference_checked", "sentinel_hit", "shifted_window_checked",
+MUST = ["rereads_after_register_change", "schedule_power_readings_checked", "schedule_groups_decoded", "end_to_end_with_refused_blocks", "undecodable_neighbour_in_block", "single_sensor_reads_end_to_end", "sensor_and_setting_of_one_id", "values_checked", "footprint_checked", "noninterference_checked", "sentinel_hit", "shifted_window_checked",
         "end_to_end_values", "single_read_checked", "sensors_covered"]
 EXHAUSTIVE = {"quick": False, "thorough": False}
 
@@ -446,6 +446,71 @@ def schedule_groups(spec, part):
         part.see(f"schedule|{tname}|{typ}|{power < 0}")
 
 
+def reread_part(spec, part):
+    """one object reads the same setting / sensor singly again and again while the inverter's registers move on between the reads (a few
+    virtual milliseconds apart, no write in between): each reading is the documented interpretation of the bytes held AT THAT TIME"""
+    g = env.goodwe()
+    rnd = random.Random(spec["seed"])
+    for fam, port in (("ES", 8899), ("ET", 8899), ("ET", 502), ("DT", 8899), ("DT", 502)):
+        sim = models.family_sim(fam, rnd=rnd, style="random")
+        results = []
+
+        async def flow(loop):
+            import asyncio
+            inv = models.family_cls(g, fam)("inv0", port, 0, 1, 0)
+            await inv.read_device_info()
+            items = [("setting", x) for x in inv.settings()] + [("sensor", x) for x in inv.sensors()]
+            rnd.shuffle(items)
+            done = 0
+            for role, sn in items:
+                try:
+                    span = rs.own_span(sn)
+                except rs.NoRef:
+                    continue
+                if type(sn).__name__ in ("EcoModeV1", "EcoModeV2", "Schedule", "PeakShavingMode", "Timestamp") or span not in (1, 2, 4):
+                    continue
+                if role == "sensor" and fam == "ES":
+                    continue
+                for rep in range(3):
+                    # new content of the item's own bytes
+                    if fam == "ES" and sn.offset < 1000:
+                        if sn.offset + span > len(sim.settings):
+                            break
+                        sim.settings[sn.offset:sn.offset + span] = bytes(rnd.randrange(1, 120) for _ in range(span))
+                        own = bytes(sim.settings[sn.offset:sn.offset + span])
+                    else:
+                        regs = (span + 1) // 2
+                        for a in range(sn.offset, sn.offset + regs):
+                            sim.regs[a] = rnd.randrange(1, 30000)
+                        own = sim.get_bytes(sn.offset, regs)
+                        own = own[:span] if type(sn).__name__ not in ("ByteL", "EnumL") else own
+                    try:
+                        want = rs.ref_value(sn, own)
+                    except (rs.Undecodable, rs.NoRef):
+                        break
+                    try:
+                        got = await (inv.read_setting(sn.id_) if role == "setting" else inv.read_sensor(sn.id_))
+                    except (ValueError, g.InverterError):
+                        break
+                    results.append((role, sn.id_, type(sn).__name__, rep, own.hex(), got, want))
+                    await asyncio.sleep(0.005)
+                done += 1
+                if done >= spec["n"]:
+                    break
+        run = engine.run_custom({("inv0", port): sim}, flow, vtime_cap=3000, tx_cap=20000)
+        if run.stop or run.error is not None:
+            part.violate(f"C12/{fam}/run-failed", f"re-reads: {run.stop or repr(run.error)[:120]}", {"reread": True, "seed": spec["seed"]})
+            continue
+        for role, sid, tn, rep, ownhex, got, want in results:
+            part.evaluations += 1
+            part.count("rereads_after_register_change")
+            if not rs.same(got, want):
+                part.violate(f"C12/{fam}/{tn}/stale-or-wrong-value-on-reread",
+                             f"{fam} port {port}: read #{rep + 1} of {role} {sid!r} on the same object, registers now {ownhex}: reported {got!r}, "
+                             f"documented reading {rs.show(want)}", {"reread": True, "seed": spec["seed"]})
+        part.see(f"reread|{fam}|{port}")
+
+
 def plan(tier, seed):
     specs = []
     shards = 2 if tier == "quick" else 8
@@ -459,6 +524,8 @@ def plan(tier, seed):
         specs.append({"mode": "e2e", "seed": f"{seed}:C12:e2e:{i}", "n": 60 if tier == "quick" else 600})
     specs.append({"mode": "dtpair", "seed": f"{seed}:C12:dtpair", "n": 20 if tier == "quick" else 200})
     specs.append({"mode": "schedule", "seed": f"{seed}:C12:schedule", "n": 6000 if tier == "quick" else 200000})
+    for i in range(1 if tier == "quick" else 8):
+        specs.append({"mode": "reread", "seed": f"{seed}:C12:reread:{i}", "n": 25 if tier == "quick" else 400})
     return specs
 
 
@@ -470,6 +537,8 @@ def run_shard(spec):
         dt_pair(spec, part)
     elif spec["mode"] == "schedule":
         schedule_groups(spec, part)
+    elif spec["mode"] == "reread":
+        reread_part(spec, part)
     else:
         end_to_end(spec, part)
     return part
@@ -478,6 +547,9 @@ def run_shard(spec):
 def replay(case):
     g = env.goodwe()
     part = Part()
+    if case.get("reread"):
+        reread_part({"seed": case["seed"], "n": 400}, part)
+        return [{"key": v["key"], "msg": v["msg"]} for v in part.violations]
     if case.get("schedule"):
         schedule_groups({"seed": "replay", "n": 3000}, part)
         return [{"key": v["key"], "msg": v["msg"]} for v in part.violations]
